@@ -272,5 +272,8 @@ def _get_action_form_arguments(left, right):
 
     if isinstance(left, BaseForm):
         coefficients += left.coefficients()
+    elif isinstance(left, BaseCoefficient):
+        # `left` is a Coefficient in V (= V**): the value of the Action depends on it
+        coefficients += (left,)
 
     return arguments, coefficients
